@@ -20,6 +20,7 @@ import (
 	"net"
 	"strconv"
 	"strings"
+	"time"
 
 	"github.com/ethereum/go-ethereum/p2p/enode"
 	"github.com/zen-eth/shisui/portalwire"
@@ -90,6 +91,15 @@ func c20exec(c *Ctx, keyhex, proto string, permits int, ins []c11ins, ops []stri
 					abs = append(abs, "N")
 					obs = append(obs, "panic "+m)
 					continue
+				}
+				// the ping payload is processed in its own goroutine, which may first re-request the sender's record over the
+				// network; wait for it as long as it takes (a minute at most).  If it still runs then, the state of the cache is
+				// not determined: the history is given up as unobserved rather than compared.
+				if !inst.WaitPings(60 * time.Second) {
+					c.Count("history_unobserved_ping_processing_did_not_finish")
+					c.Emit("gs-unobserved %s %s | unobserved", keyhex, proto)
+					inst.WaitPings(10 * time.Minute)
+					return
 				}
 			} else {
 				pong = "1"
